@@ -1,6 +1,6 @@
 UNIT = dict(
   name='chanq',
-  properties=['C07'],
+  properties=['C07', 'C16'],
   header='#![allow(unused)]\n#![feature(allocator_api)]\nuse vstd::prelude::*;\nuse std::collections::VecDeque;\n',
   items=[
     ('laythe_core/src/object/channel/mod.rs', [
@@ -13,6 +13,8 @@ UNIT = dict(
     ]),
   ],
   rewrites=[
+    # R6: pre-allocation through std's panicking constructor goes through a stub carrying std's documented panic condition
+    ('R6', 'ChannelQueue::with_capacity', dict(pat='VecDeque::with_capacity(', rep='verif_vecdeque_with_capacity(', optional=True)),
     # R7: single-file crate: private fields become visible to the contracts of pub fns
     ('R7f', 'struct ChannelQueue'),
     ('R7', 'kind:enum', dict(pat=r'^((?:\s*///[^\n]*\n|\s*#\[[^\]]*\]\s*\n)*)enum ', rep=r'\1pub enum ', regex=True, optional=True)),
